@@ -20,7 +20,9 @@ import (
 // and one shared parsed function per (path, config). Then 2..16 goroutines start together and
 // each performs 40..400 operations: call a shared parsed function on a shared document, Parse
 // a path and call the new function, Retrieve, Parse a path that is rejected. Every answer
-// must equal the answer obtained alone. The same runner is meant to be run in a binary built
+// must equal the answer obtained alone. 35% of the cases add a document of records whose strings are
+// LONG (64..200 bytes, sharing prefixes of 60+ bytes, some matching, some not, next to short strings and
+// non-strings) and 2..4 paths that filter it with `=~` (c06LongStrings). The same runner is meant to be run in a binary built
 // with -race and GORACE=halt_on_error=1 (bin/race_c06.sh): a data race then kills the worker
 // and is reported as a crash finding.
 
@@ -254,6 +256,16 @@ func (c06) Exec(seed int64, i int, tier string) Record {
 	if r.Chance(40) {
 		docs = append(docs, ToJnum(docs[r.Intn(2)]))
 	}
+	longStrings := r.Chance(35)
+	if longStrings {
+		d, ps := c06LongStrings(r)
+		docs = append(docs, d)
+		if r.Chance(50) {
+			d2, _ := c06LongStrings(r)
+			docs = append(docs, d2)
+		}
+		texts = append(texts, ps...)
+	}
 	ncorp := r.Range(3, 8)
 	for k := 0; k < ncorp; k++ {
 		texts = append(texts, r.Pick(c06Corpus))
@@ -448,6 +460,9 @@ func (c06) Exec(seed int64, i int, tier string) Record {
 		ov = "2-3"
 	}
 	rec.Tags = append(rec.Tags, fmt.Sprintf("goroutines:%02d", G), "overlapping-goroutines:"+ov)
+	if longStrings {
+		rec.Tags = append(rec.Tags, "doc:long-strings-under-regex")
+	}
 	var tl []string
 	for t := range toks {
 		tl = append(tl, t)
@@ -467,6 +482,71 @@ func (c06) Exec(seed int64, i int, tier string) Record {
 		rec.Key = fmt.Sprintf("G%d/%s", G, strings.Join(tl, ","))
 	}
 	return rec
+}
+
+var c06Words = []string{"alpha", "beta", "gamma", "needle", "x1", "ab", "tempor", "omega"}
+
+// c06LongStrings: an array of 6..24 records {"a": string, "b": number} (a third of the cases below a key `d`) whose
+// strings are mostly 64..200 bytes long, and 2..4 paths filtering it with a regular expression (plain words, a long
+// literal prefix, an anchored word).
+func c06LongStrings(r *Rng) (interface{}, []string) {
+	n := r.Range(6, 24)
+	arr := make([]interface{}, n)
+	var longs []string
+	for k := range arr {
+		m := map[string]interface{}{"b": float64(k)}
+		switch r.Weighted([]int{70, 10, 10, 10}) {
+		case 0:
+			if len(longs) > 0 && r.Chance(25) {
+				m["a"] = longs[r.Intn(len(longs))] // the same long string again
+			} else {
+				s := ScaleLongString(r, c06Words)
+				longs = append(longs, s)
+				m["a"] = s
+			}
+		case 1:
+			m["a"] = r.Pick(c06Words)
+		case 2:
+			m["a"] = float64(r.Range(0, 9))
+		}
+		arr[k] = m
+	}
+	var doc interface{} = arr
+	under := r.Chance(35)
+	if under {
+		doc = map[string]interface{}{"d": arr, "a": ScaleLongString(r, c06Words), "b": 1.0}
+	}
+	var texts []string
+	for k := r.Range(2, 4); k > 0; k-- {
+		re := r.Pick(c06Words)
+		switch r.Intn(6) {
+		case 0:
+			re = "lorem ipsum dolor sit amet consectetur adipiscing elit sed do eiusmod tempor "
+		case 1:
+			re = re + "$"
+		case 2:
+			re = "^lorem.*" + re
+		}
+		q := &Query{Kind: QRegex, P: &Path{Head: HeadCur, Steps: []*Step{{Kind: StChild, Key: "a"}}}, Re: re}
+		if r.Chance(25) {
+			q = &Query{Kind: QKind(r.Intn(2)), A: q, B: &Query{Kind: QRegex, P: &Path{Head: HeadCur, Steps: []*Step{{Kind: StChild, Key: "a"}}}, Re: r.Pick(c06Words)}}
+		}
+		p := &Path{Head: HeadRoot}
+		switch {
+		case under && r.Chance(70):
+			p.Steps = append(p.Steps, &Step{Kind: StChild, Key: "d"})
+		case r.Chance(30):
+			p.Steps = append(p.Steps, &Step{Kind: StDesc, Inner: &Step{Kind: StFilter, Q: q}})
+		}
+		if len(p.Steps) == 0 || p.Steps[0].Kind != StDesc {
+			p.Steps = append(p.Steps, &Step{Kind: StFilter, Q: q})
+		}
+		if r.Chance(40) {
+			p.Steps = append(p.Steps, &Step{Kind: StChild, Key: r.Pick([]string{"a", "b"})})
+		}
+		texts = append(texts, Render(p, r))
+	}
+	return doc, texts
 }
 
 // ---------- class overlap-without-threads ----------
